@@ -79,9 +79,13 @@ func (propC09) Draw(rt *rapid.T, w *WorldDesc, mode string) *Plan {
 		}
 		md := pool[rapid.IntRange(0, len(pool)-1).Draw(rt, l+".rpc")]
 		rpc := w.RPC(md.Key)
-		op := &Op{ID: i, RPC: md.Key, Client: "raw", Server: "go", App: AppBehaviour{Kind: "respond"}}
+		op := &Op{ID: i, RPC: md.Key, Client: "raw", Server: drawServer(rt, l+".server"), App: AppBehaviour{Kind: "respond"}}
 		req := drawValidReq(rt, w, md, l+".req")
 		ct := rapid.SampledFrom([]string{"application/json", "application/x-protobuf"}).Draw(rt, l+".ct")
+		if op.Server == "ts" {
+			ct = "application/json"
+			scrubNonFinite(req.ProtoReflect(), 0)
+		}
 		raw, err := ValidRaw(rpc, req, ct, nil)
 		if err != nil {
 			continue
@@ -165,7 +169,7 @@ func (propC09) Check(k *Kernel, cov *Coverage) *Violation {
 			}
 		}
 		sort.Strings(offending)
-		hs := headerShapes(rpc, states, true)
+		_ = headerShapes
 		hsAll := headerShapes(rpc, states, false)
 		sig := func(class, extra string) string {
 			s := "C09|" + class + "|" + c.Op.Server
@@ -187,7 +191,7 @@ func (propC09) Check(k *Kernel, cov *Coverage) *Violation {
 		}
 		if len(offending) > 0 {
 			if c.Status != 400 || len(c.Seen) > 0 {
-				return &Violation{Class: "dispatched-without-required-header", Signature: sig("dispatched-without-required-header", hs),
+				return &Violation{Class: "dispatched-without-required-header", Signature: sig("dispatched-without-required-header", oneShape(k.W, rpc, states, offending[0])),
 					Detail: fmt.Sprintf("op %d %s %s headers=%v: required header(s) %v absent/empty/invalid, want 400 and no dispatch; got status %d dispatched=%d", c.Op.ID, c.Op.Raw.Verb, c.Op.Raw.Target, c.Op.Raw.Headers, offending, c.Status, len(c.Seen))}
 			}
 			ve, err := decodeValidation(c)
@@ -195,15 +199,37 @@ func (propC09) Check(k *Kernel, cov *Coverage) *Violation {
 				return &Violation{Class: "malformed-400", Signature: sig("malformed-400", ""), Detail: fmt.Sprintf("op %d: 400 body does not decode: %v: %q", c.Op.ID, err, truncBytes(c.RespBody))}
 			}
 			var got []string
+			count := map[string]int{}
 			for _, v := range ve.GetViolations() {
 				got = append(got, strings.ToLower(v.GetField()))
+				count[strings.ToLower(v.GetField())]++
 			}
 			sort.Strings(got)
-			if strings.Join(got, ",") != strings.Join(offending, ",") {
-				return &Violation{Class: "violations-mismatch", Signature: sig("violations-mismatch", hs),
-					Detail: fmt.Sprintf("op %d %s %s headers=%v: want exactly one violation per offending header %v, got %v", c.Op.ID, c.Op.Raw.Verb, c.Op.Raw.Target, c.Op.Raw.Headers, offending, got)}
+			for _, o := range offending {
+				if count[o] == 0 {
+					return &Violation{Class: "offending-header-not-reported", Signature: sig("offending-header-not-reported", oneShape(k.W, rpc, states, o)),
+						Detail: fmt.Sprintf("op %d %s %s headers=%v: offending headers %v, violations list %v lacks %q", c.Op.ID, c.Op.Raw.Verb, c.Op.Raw.Target, c.Op.Raw.Headers, offending, got, o)}
+				}
 			}
-			if cn.BodyReadsAtWH > 0 {
+			for _, o := range offending {
+				if count[o] > 1 {
+					return &Violation{Class: "duplicate-violation", Signature: sig("duplicate-violation", oneShape(k.W, rpc, states, o)),
+						Detail: fmt.Sprintf("op %d %s %s headers=%v: want exactly one violation per offending header %v, got %v", c.Op.ID, c.Op.Raw.Verb, c.Op.Raw.Target, c.Op.Raw.Headers, offending, got)}
+				}
+			}
+			for g := range count {
+				isOff := false
+				for _, o := range offending {
+					if o == g {
+						isOff = true
+					}
+				}
+				if !isOff {
+					return &Violation{Class: "non-offending-header-reported", Signature: sig("non-offending-header-reported", oneShape(k.W, rpc, states, g)),
+						Detail: fmt.Sprintf("op %d %s %s headers=%v: offending headers %v, but the violations list is %v", c.Op.ID, c.Op.Raw.Verb, c.Op.Raw.Target, c.Op.Raw.Headers, offending, got)}
+				}
+			}
+			if cn.BodyReadsAtWH > 0 && c.Op.Server == "go" {
 				return &Violation{Class: "body-read-before-header-decision", Signature: sig("body-read-before-header-decision", ""),
 					Detail: fmt.Sprintf("op %d %s: the handler chain made %d Read call(s) on the request body before committing the 400 for headers %v", c.Op.ID, c.Op.RPC, cn.BodyReadsAtWH, offending)}
 			}
@@ -217,14 +243,14 @@ func (propC09) Check(k *Kernel, cov *Coverage) *Violation {
 				for _, v := range ve.GetViolations() {
 					for _, h := range rpc.Headers {
 						if strings.EqualFold(v.GetField(), h.Name) {
-							return &Violation{Class: "valid-header-rejected", Signature: sig("valid-header-rejected", headerShapes(&spec.RPC{Headers: []*spec.Header{h}}, states, false)),
+							return &Violation{Class: "valid-header-rejected", Signature: sig("valid-header-rejected", oneShape(k.W, rpc, states, strings.ToLower(h.Name))),
 								Detail: fmt.Sprintf("op %d %s %s headers=%v: all required headers carry unambiguously valid values, yet 400 names header %q: %s", c.Op.ID, c.Op.Raw.Verb, c.Op.Raw.Target, c.Op.Raw.Headers, v.GetField(), v.GetDescription())}
 						}
 					}
 				}
 			}
 		}
-		if noteOf(c.Op, "body") == "" && c.Status != 200 && ruleViolation(c.planReq(k)) == nil && missingRequiredQuery(rpc, c.planReq(k)) == nil {
+		if noteOf(c.Op, "body") == "" && c.Status != 200 && (ruleViolation(c.planReq(k)) == nil || c.Op.Server == "ts") && (missingRequiredQuery(rpc, c.planReq(k)) == nil || c.Op.Server == "ts") {
 			return &Violation{Class: "valid-request-rejected", Signature: sig("valid-request-rejected", fmt.Sprintf("status=%d", c.Status)),
 				Detail: fmt.Sprintf("op %d %s %s headers=%v: valid request answered %d: %q", c.Op.ID, c.Op.Raw.Verb, c.Op.Raw.Target, c.Op.Raw.Headers, c.Status, truncBytes(c.RespBody))}
 		}
@@ -265,4 +291,45 @@ func headerShapes(rpc *spec.RPC, states map[string]string, offendingOnly bool) s
 	}
 	sort.Strings(out)
 	return strings.Join(out, ",")
+}
+
+// oneShape names the likely cause dimension of a misjudged header: whether a
+// method-level declaration overrides a service-level one of the same name, else its
+// state, plus the declared type/format where the value's form matters.
+func oneShape(w *WorldDesc, rpc *spec.RPC, states map[string]string, lname string) string {
+	for _, h := range rpc.Headers {
+		if strings.ToLower(h.Name) != lname {
+			continue
+		}
+		if ms := methodSpec(w, rpc); ms != nil {
+			for _, f := range w.Spec().Files {
+				for _, sv := range f.Services {
+					if sv.Name != rpc.Service {
+						continue
+					}
+					for _, sh := range sv.Headers {
+						for _, mh := range ms.Headers {
+							if strings.EqualFold(sh.Name, mh.Name) && strings.EqualFold(mh.Name, h.Name) {
+								return "override"
+							}
+						}
+					}
+				}
+			}
+		}
+		st := states[lname]
+		t := h.Type
+		if t == "" {
+			t = "unset"
+		}
+		if h.Format != "" {
+			t += "/" + h.Format
+		}
+		switch st {
+		case "invalid", "valid":
+			return st + ":" + t
+		}
+		return st
+	}
+	return lname
 }
